@@ -1050,3 +1050,14 @@ Example names_fault_aborts :
   out s = [LErr "xmlrpc.client.Fault" "<Fault 6: 'SHUTDOWN_STATE'>"] /\ ex s = 1 /\
   calls s = [("removeProcessGroup", [AS "a"])].
 Proof. vm_compute. auto. Qed.
+
+(* ------------------------------------------------------------------ plugins *)
+(* extra ctlplugins never change a built-in action, and a command two plugins define
+   resolves to the first of them *)
+Theorem builtin_actions_survive_plugins e extra cmd f :
+  action_of e cmd = Some f -> get_do_func e extra cmd = Some f.
+Proof. intro H. unfold get_do_func. cbn [first_plugin]. rewrite H. reflexivity. Qed.
+
+Theorem first_plugin_wins {A} (p q : string -> option A) rest cmd f :
+  p cmd = Some f -> first_plugin (p :: q :: rest) cmd = Some f.
+Proof. intro H. cbn [first_plugin]. rewrite H. reflexivity. Qed.
